@@ -68,6 +68,13 @@ func genC14(t *rapid.T) interface{} {
 			Shutdown: rapid.Bool().Draw(t, "viashutdown"),
 		}
 	}
+	if sc.Cfg.PtyRows == 0 && rapid.IntRange(0, 7).Draw(t, "outputdies") == 0 {
+		// the output goes away at some point: the frames drawn on the way down
+		// (early refreshes, the final frames after cancel / Shutdown) may be the
+		// ones that fail. Everything the statement promises about the shutdown
+		// itself still has to hold.
+		sc.OutErrAt = rapid.IntRange(1, 10).Draw(t, "outerrat")
+	}
 	vstat.Excluded(excludedKnown)
 	return sc
 }
@@ -82,6 +89,9 @@ func runC14(ci interface{}) Result {
 		return r
 	}
 	r.Classes = append(append(r.Classes, "refresh:"+sc.Cfg.Refresh), featureClasses(sc)...)
+	if tr.OutputErrs > 0 {
+		r.Classes = append(r.Classes, "output-failed")
+	}
 	cancelled := tr.CancelSeq != 0
 	if tr.Hang != nil {
 		dumpHang(sc, tr)
@@ -163,7 +173,9 @@ func runC14(ci interface{}) Result {
 		r.Classes = append(r.Classes, "notifier")
 	}
 	end, seqCancelled, okEnd := engine.EndState(sc)
-	if okEnd && sc.CancelAt == nil {
+	// (once the output has failed the container shuts down by itself, at a moment
+	// the program's order of steps does not tell: the end-state model is not used)
+	if okEnd && sc.CancelAt == nil && tr.OutputErrs == 0 {
 		for _, g := range tr.Final {
 			e := end[g.Bar]
 			if e.ByCancel && (!g.Aborted || g.Completed) {
